@@ -9,3 +9,5 @@ open Martian.Props.C01
 #print axioms served_prefix_is_until_first_close
 #print axioms closes_iff_asked
 #print axioms next_request_served_iff
+#print axioms chunked_body_identical_for_every_chunking
+#print axioms rechunking_by_the_relay_preserves_body
